@@ -258,6 +258,19 @@ fn build(d: &Dump, term_ids: &mut HashMap<String, u8>) -> Result<Built, String> 
     for (i, n) in d.order.iter().enumerate() {
         nt_ids.insert(n.as_str(), i);
     }
+    // a symbol that is used but has no entry of its own in the dump is a symbol without rules (nothing derives from
+    // it): it takes part in the comparison as such, it does not make the dump unreadable
+    let mut names: Vec<String> = d.order.clone();
+    for n in &d.order {
+        for r in &d.syms[n].rules {
+            for (sym, _) in &r.rhs {
+                if !sym.starts_with('[') && !nt_ids.contains_key(sym.as_str()) {
+                    nt_ids.insert(sym.as_str(), names.len());
+                    names.push(sym.clone());
+                }
+            }
+        }
+    }
     let tid = |name: String, term_ids: &mut HashMap<String, u8>| -> Result<u8, String> {
         if let Some(t) = term_ids.get(&name) {
             return Ok(*t);
@@ -323,7 +336,7 @@ fn build(d: &Dump, term_ids: &mut HashMap<String, u8>) -> Result<Built, String> 
     }
     specials.sort();
     Ok(Built {
-        bnf: Bnf { prods, n_nts: d.order.len(), start, start_param: 0, names: d.order.clone() },
+        bnf: Bnf { prods, n_nts: names.len(), start, start_param: 0, names },
         specials,
     })
 }
